@@ -16,7 +16,7 @@ WEIGHTS = [("hostile", 4), ("plain", 1), ("thin", 1), ("nobpe", 1), ("fullmatch"
 
 
 def plan(tier, seed):
-    return _sim.plan_profiles(tier, seed, WEIGHTS, 1600, 48000)
+    return _sim.plan_profiles(tier, seed, WEIGHTS, 6000, 64000)
 
 
 def run(desc):
